@@ -1090,8 +1090,6 @@ fn oracles(run: &mut Run, nops: usize) {
             let expired = q.age > T_UNITS;
             let class = if q.pipelined_first {
                 Some("pipelined-request-dropped")
-            } else if q.verb == VerbK::ReloadBad && !run.deny {
-                None // the main process died in the handler: reported as reload-bad-path-crashes-main
             } else if q.verb.no_answer() {
                 Some("no-answer-verb")
             } else if run.crash_expected && q.eof_at.is_some() {
@@ -1213,8 +1211,9 @@ fn corpus_cases() -> Vec<Vec<String>> {
         s(&["new 1 10", "req 0 loadcorrupt 2", "ans 0 0 0 1 ok", "ans 0 0 0 2 fail", "req 1 list", "adv 12"]),
         // ReloadConfiguration: 5 messages, one refused by the worker; no deadline
         s(&["new 1 10", "req 0 reload 5", "ans 0 0 0 0 ok", "ans 0 0 0 1 fail", "ans 0 0 0 2 ok", "ans 0 0 0 3 ok", "adv 12", "ans 0 0 0 4 ok"]),
-        // ReloadConfiguration of an unloadable path kills the main process (open: reload-bad-path-crashes-main)
-        s(&["new 1 10", "req 0 add", "req 1 reloadbad", "req 2 list"]),
+        // F1492 (repaired): ReloadConfiguration of an unloadable path used to kill the main process; now one
+        // Failure, the spent task id shifts the next ids, the other client's request completes
+        s(&["new 1 10", "req 0 add", "req 1 reloadbad", "req 2 list", "req 3 add", "ans 0 0 0 0 ok", "ans 0 0 2 0 ok"]),
         // SetMetricDetail: Ok "completed with worker errors" (open: metricdetail-ok-without-all-workers); refused when invalid
         s(&["new 2 10", "req 0 metricdetail", "ans 0 0 0 0 fail", "ans 1 1 0 0 ok", "req 1 metricdetailbad", "req 2 maxconn", "ans 0 0 1 0 ok", "ans 1 1 1 0 fail"]),
         // a uid outside command_allowed_uids: everything is refused, nothing scattered, stop verbs do not stop
@@ -1303,7 +1302,7 @@ fn gen_case(rng: &mut Rng, thorough: bool) -> Vec<String> {
             } else {
                 ops.push(format!("req {c} {verb}"));
             }
-            if vk.is_stop() || vk == VerbK::ReloadBad {
+            if vk.is_stop() {
                 stopped = true;
             }
             if vk == VerbK::AddBig {
@@ -1319,7 +1318,7 @@ fn gen_case(rng: &mut Rng, thorough: bool) -> Vec<String> {
                     }
                 }
             }
-            if matches!(vk, VerbK::LoadCorrupt(_)) {
+            if matches!(vk, VerbK::LoadCorrupt(_) | VerbK::ReloadBad) {
                 next_task += 1; // the cancelled task spent an id
             }
             if vk.gathers() {
